@@ -1,5 +1,6 @@
 SPECIFICATION Spec
 CONSTANTS Growth = 2 Mode = "bytes" MaxBits = 0 Wide = TRUE Lean = FALSE
+INVARIANT UniverseLegal
 INVARIANT RoundTrip
 INVARIANT LengthInBLS
 INVARIANT WholeBytes
